@@ -783,3 +783,19 @@ def order_states(a, entry, blks, is_x, is_y):
                 st[s] = st.get(s, set()) | out
                 work.append(s)
     return st, ref
+
+
+def as_min(a, e):
+    """(x, y) if expression e denotes min(x, y): a call of min / Ord::min, or a variable chosen by
+    `if x < y { x } else { y }` (each of its two assignments sits behind the comparison edge that makes it the smaller)."""
+    if e[0] == 'call' and strip_generics(e[1]).split('::')[-1] == 'min' and len(e[2]) == 2:
+        return e[2][0], e[2][1]
+    if e[0] == 'local':
+        srcs = a.flow.sources(e)
+        if len(srcs) == 2 and all(sb is not None for (sb, _, _) in srcs):
+            (bx, _, x), (by, _, y) = srcs
+            ex = edges_where(a, lambda op, l, r: op in ('Lt', 'Le') and flowm.eqv(l, x) and flowm.eqv(r, y), flags=False)
+            ey = edges_where(a, lambda op, l, r: op in ('Lt', 'Le') and flowm.eqv(l, y) and flowm.eqv(r, x), flags=False)
+            if ex and ey and a.cfg.must_pass(bx, via_edges=ex) and a.cfg.must_pass(by, via_edges=ey):
+                return x, y
+    return None
